@@ -216,7 +216,9 @@ CLAIMED['C10'] = dict(
          '"Outdated" forms (regex as z3 regular expression). Login dispatch tables for a symbolic supported version against the '
          'reference in spec/protocol_ref.py: membership and ids of the clientbound/serverbound login packets per version range '
          '(plugin packets from 385, shifted ids 385..390), the reactor resolves the specified id, and the plugin exchange bytes-in -> '
-         'bytes-out (VarInt id of any length, any channel, any payload -> VarInt(id) + false).',
+         'bytes-out (VarInt id of any length, any channel, any payload -> VarInt(id) + false). The networking thread\'s read loop '
+         'takes reactor and file object from the connection at every read (loop contract of _run with a reaction that replaces both), '
+         'so the cipher swap takes effect for the very next packet.',
     note='The history quantifier (any admissible order of steps) is an induction over these per-step obligations - an '
          'argument, not machine-checked. Trusted: os.urandom, RSA/AES constructors as uninterpreted functions, C17 hash '
          'contract, json.loads shapes, z3 string/regex theory. Bounded: the reaction with a real RSA-1024 key and real AES '
@@ -234,7 +236,8 @@ CLAIMED['C11'] = dict(
          'and it is dropped after a disconnect packet), the lock is released on every path. _handle_exit: callback exactly once '
          'iff closed and set. Keep-alive on the wire: the server\'s bytes are built from the specification (Long from protocol 339, '
          'canonical VarInt before; spec/protocol_ref.py), decoded, answered and re-encoded by the real code: whole field consumed and '
-         'the answer carries the same bytes, for every supported version and id.',
+         'the answer carries the same bytes, for every supported version and id. Frames of any conforming peer (compressed or not '
+         'at any size) are accepted and inflated exactly when their data-length field is non-zero.',
     note='Safety only: "always answered" as liveness (the loop runs again, the queue is eventually written) is not decided. '
          'Trusted: deque FIFO semantics, S4 version order, read_packet (C01) and _react (C13) through their contracts. Bounded: '
          'seeded 120-packet server histories on the real reactor at protocols 47/107/340/757, the real _run with 700 outgoing and '
